@@ -990,3 +990,39 @@ def m_opt_as_ref(ex, callee, args):
 def m_partial_ne(ex, callee, args):
     """PartialEq::ne is the provided method: !eq"""
     return b_not(ex.call(callee[:-2] + 'eq', args))
+
+
+@model(r'^core::str::<impl str>::as_bytes$|^std::string::String::as_bytes$')
+def m_as_bytes(ex, callee, args):
+    s = as_str(args[0])
+    bs, ln, cap = S.parts(s)
+    if not isinstance(ln, int):
+        raise Unsupported('as_bytes() of a string of symbolic length')
+    return Ref(Cont([Arr([BV(b, 'u8') for b in bs[:ln]])]), 0)
+
+
+@model(r'^core::str::<impl str>::bytes$')
+def m_bytes_iter(ex, callee, args):
+    s = as_str(args[0])
+    bs, ln, cap = S.parts(s)
+    if not isinstance(ln, int):
+        raise Unsupported('bytes() of a string of symbolic length')
+    return IterV('owned', VecV([BV(b, 'u8') for b in bs[:ln]]))
+
+
+@model(r'^core::slice::<impl \[.*\]>::(first|last)$')
+def m_slice_first_last(ex, callee, args):
+    v = vec_of(args[0])
+    if not v.items:
+        return none()
+    i = 0 if callee.endswith('first') else len(v.items) - 1
+    return some(Ref(v, i))
+
+
+@model(r'^core::slice::<impl \[.*\]>::get::<usize>$|^Vec::<.*>::get::<usize>$')
+def m_slice_get(ex, callee, args):
+    v = vec_of(args[0])
+    n = ex.concretize(args[1], candidates=list(range(len(v.items) + 1)), what='slice index')
+    if n < len(v.items):
+        return some(Ref(v, n))
+    return none()
